@@ -61,6 +61,9 @@ class Children:
             if k == 0:
                 # the first child also runs it once with a wall clock that jumps 3 s between any two readings
                 msg['slow_clock'] = True
+            if k == 1 % len(self.procs):
+                # ... and the second once with the topsim loggers at INFO level
+                msg['verbose_log'] = True
             if k == max(0, len(self.procs) - 2):
                 # one child also runs the scenario twice more with ONE DelayModel object shared by both simulations
                 msg['shared_dm'] = True
@@ -97,7 +100,7 @@ class C10:
     rule = ("scenarios (all shipped pairings, wide DAG fronts with several ready tasks and few machines, shipped DelayModel with generated "
             "prob/degree/seed/distribution) are run twice in each of K child interpreters started with PYTHONHASHSEED 0..K-1 (quick K=3, "
             "thorough K=8); child k>0 runs a related decoy simulation first (other machine speeds / delay seed), so interpreters differ in "
-            "history too, one child runs it once more under a wall clock that jumps 3 s between any two readings, one child runs it twice more with one DelayModel object shared by both simulations, and the last child runs the scenario a third time with another simulation built and run between the construction of its Simulation and its start(); non-trivial = some algorithm.run call saw >= 2 ready tasks (reported by the child); distinct = distinct "
+            "history too, one child runs it once more with the topsim loggers at INFO level, one child runs it once more under a wall clock that jumps 3 s between any two readings, one child runs it twice more with one DelayModel object shared by both simulations, and the last child runs the scenario a third time with another simulation built and run between the construction of its Simulation and its start(); non-trivial = some algorithm.run call saw >= 2 ready tasks (reported by the child); distinct = distinct "
             "canonical scenario JSON")
     level_text = ("exploration: digests of the per-timestep table (minus *-algtime columns), the task table and the event log must be "
                   "equal between the in-process runs (plain, repeated, interleaved with another simulation) and between all K interpreters")
@@ -143,6 +146,9 @@ class C10:
                 if 'third' in r and r['third'] != r['first']:
                     out.append(O.V('C10', 'depends_on_other_simulation', f"PYTHONHASHSEED={hs}: a run whose Simulation was built before another "
                                    f"simulation was built and run in the same interpreter differs from the plain run: {diff_keys(r['first'], r['third'])}"))
+                if 'sixth' in r and r['sixth'] != r['first']:
+                    out.append(O.V('C10', 'depends_on_logging_level', f"PYTHONHASHSEED={hs}: with the topsim loggers at INFO level the outputs differ: "
+                                   f"{diff_keys(r['first'], r['sixth'])}"))
                 if 'fifth' in r and r['fifth'] != r['first']:
                     out.append(O.V('C10', 'depends_on_wall_clock', f"PYTHONHASHSEED={hs}: with a wall clock that advances 3 s between any two readings the outputs "
                                    f"(timing columns excluded) differ: {diff_keys(r['first'], r['fifth'])}"))
